@@ -471,7 +471,8 @@ def judge(c2m, engines, cases, tag, stats, extra_engines=()):
                     culprit = None
                     if not fresh and len(items) > 1:
                         for n in whole:
-                            if res[n][0] != "reject":
+                            # (no output at all: the compiler died before main, e.g. while generating code: halve instead)
+                            if res[n][0] != "reject" and res[n][1]:
                                 for i, c in items:
                                     if not complete(c, res[n][1].get(i, {})):
                                         culprit = (i, c) if culprit is None or i < culprit[0] else culprit
